@@ -29,6 +29,23 @@ theorem swap_groups (b r : Bytes) (n : Nat) (hn : n = 2 ∨ n = 4) (hl : b.lengt
   subst h
   simp [Spec.swapGroups, hk]
 
+/-- (added by the rev2 review) `swap_groups` without the totalised `getD`: both indices are in range and the two bytes are the same byte -/
+theorem swap_groups_get (b r : Bytes) (n : Nat) (hn : n = 2 ∨ n = 4) (hl : b.length % n = 0)
+    (h : endiannessSwap b n = .ok r) (k : Nat) (hk : k < b.length) :
+    ∃ x, r[k]? = some x ∧ b[n * (k / n) + (n - 1 - k % n)]? = some x := by
+  obtain ⟨hlen, hg⟩ := swap_groups b r n hn hl h k hk
+  have hidx : n * (k / n) + (n - 1 - k % n) < b.length := by rcases hn with rfl | rfl <;> omega
+  have hkr : k < r.length := by omega
+  refine ⟨r[k], List.getElem?_eq_getElem hkr, ?_⟩
+  rw [List.getD_eq_getElem?_getD, List.getD_eq_getElem?_getD, List.getElem?_eq_getElem hkr,
+    List.getElem?_eq_getElem hidx] at hg
+  simp only [Option.getD_some] at hg
+  rw [List.getElem?_eq_getElem hidx, hg]
+
+example : (4 = 2 ∨ 4 = 4) ∧ ([1, 2, 3, 4, 5, 6, 7, 8] : Bytes).length % 4 = 0 ∧
+    endiannessSwap [1, 2, 3, 4, 5, 6, 7, 8] (4 : Nat) = .ok [4, 3, 2, 1, 8, 7, 6, 5] ∧ 6 < ([1, 2, 3, 4, 5, 6, 7, 8] : Bytes).length :=
+  ⟨by decide, by decide, rfl, by decide⟩
+
 /-- the swap is its own inverse -/
 theorem swap_involutive (b r : Bytes) (n : Int) (h : endiannessSwap b n = .ok r) :
     endiannessSwap r n = .ok b := by
@@ -56,6 +73,9 @@ theorem swap_involutive (b r : Bytes) (n : Int) (h : endiannessSwap b n = .ok r)
           simp [this, swap4_swap4 b hb]
         · simp at h
 
+example : endiannessSwap [1, 2, 3, 4, 5, 6] 2 = .ok [2, 1, 4, 3, 6, 5] ∧ endiannessSwap [2, 1, 4, 3, 6, 5] 2 = .ok [1, 2, 3, 4, 5, 6] :=
+  ⟨rfl, rfl⟩
+
 /-- accepted exactly when the group size is 2 or 4 and the length is a multiple of it -/
 theorem swap_accepts_iff (b : Bytes) (n : Int) :
     (endiannessSwap b n).isOk = true ↔ (n = 2 ∨ n = 4) ∧ (b.length : Int) % n = 0 := by
@@ -75,6 +95,8 @@ theorem swap_refuses_length (b : Bytes) (n : Int) (h0 : n ≠ 0) (hm : (b.length
     endiannessSwap b n = .error .generic := by
   simp [endiannessSwap, h0, hm]
 
+example : ((2 : Int) ≠ 0) ∧ ((([1, 2, 3] : Bytes).length : Int) % 2 ≠ 0) := by decide
+
 example : endiannessSwap [1, 2, 3] 2 = .error .generic := by rfl
 
 /-- every group size other than 2 and 4 is refused: `ZeroDivisionError` for 0, `Exception` otherwise -/
@@ -84,6 +106,8 @@ theorem swap_refuses_group (b : Bytes) (n : Int) (h2 : n ≠ 2) (h4 : n ≠ 4) :
   by_cases h0 : n = 0
   · simp [h0]
   · by_cases hm : (b.length : Int) % n = 0 <;> simp [h0, hm, h2, h4]
+
+example : ((3 : Int) ≠ 2) ∧ ((3 : Int) ≠ 4) := by decide
 
 example : endiannessSwap [1, 2, 3] 3 = .error .generic := by rfl
 
